@@ -490,3 +490,51 @@ pub fn names_file_text(names: &[String], variant: usize) -> String {
         _ => names.iter().map(|n| format!("{n} \t")).collect::<Vec<_>>().join("\n") + "\n",
     }
 }
+
+/// sample counts on and next to word / block sizes that per-row code is likely to use
+pub const BOUNDARY_SAMPLES: [usize; 15] = [8, 9, 15, 16, 17, 31, 32, 33, 63, 64, 65, 127, 128, 129, 200];
+
+/// A large symbol table that is a pure function of its parameters: `rows` rows over `n` samples with
+/// distinct arms. Row kinds (by row hash): constant; constant with gaps; constant except for ONE sample
+/// (anywhere, so also in the last few columns); two alleles split at a column; the rest random symbols
+/// with `pgap` % gaps and `pamb` % ambiguity codes. Every row has at least one non-gap symbol.
+pub fn big_symbol_table(k: usize, n: usize, rows: usize, salt: u64, pgap: u8, pamb: u8, stride: u16) -> Table {
+    let names: Vec<String> = (0..n).map(crate::gen::set_sample_name).collect();
+    let bits = 2 * (k - 1);
+    let odd = stride as u128 * 2 + 1;
+    const AMB: [u8; 11] = *b"RYSWKMBDHVN";
+    let mut out = std::collections::BTreeMap::new();
+    for i in 0..rows {
+        let mut x = ((i as u128 + 1) * odd) % (1u128 << bits.min(100));
+        if bits > 60 {
+            x |= (i as u128 + 1) << 44;
+        }
+        let h = |j: u64| crate::engine::splitmix64(salt ^ ((i as u64) << 20) ^ j);
+        let sym = |r: u64| -> u8 {
+            let p = (r % 100) as u8;
+            if p < pgap {
+                b'-'
+            } else if p < pgap.saturating_add(pamb) {
+                AMB[(r >> 16) as usize % AMB.len()]
+            } else {
+                model::BASES[(r >> 16) as usize % 4]
+            }
+        };
+        let b0 = model::BASES[(h(1_000_001) >> 3) as usize % 4];
+        let b1 = model::BASES[((h(1_000_001) >> 3) as usize + 1 + (h(1_000_002) as usize % 3)) % 4];
+        let pos = (h(1_000_003) % n as u64) as usize;
+        let mut v: Vec<u8> = match h(1_000_000) % 8 {
+            0 => vec![b0; n],
+            1 => (0..n).map(|j| if h(j as u64) % 100 < pgap.max(10) as u64 { b'-' } else { b0 }).collect(),
+            2 => (0..n).map(|j| if j == pos { if pamb > 0 && h(7) % 3 == 0 { AMB[h(8) as usize % AMB.len()] } else { b1 } } else { b0 }).collect(),
+            3 => (0..n).map(|j| if j < pos { b0 } else { b1 }).collect(),
+            _ => (0..n).map(|j| sym(h(j as u64))).collect(),
+        };
+        if v.iter().all(|b| *b == b'-') {
+            v[pos] = b0;
+        }
+        out.insert(model::unpack_arms(x, k), v);
+    }
+    assert_eq!(out.len(), rows);
+    Table { names, rows: out }
+}
